@@ -28,7 +28,8 @@ EXPLANATION = (
     'saved state and restored from it in unMakeMove, and the full-move counter is stepped under the same condition both ways; (5) '
     'serialize and deSerialize use inverse shift/mask sequences in reverse field order with widths that fit; (7) at every call of '
     'makeMove/makeMoveB/makeSEEMove on a position that outlives the call (member or reference parameter; 8 named advancing '
-    'functions excepted) every non-exceptional path to the exit or to the next make passes the matching unmake with the same move and undo record.')
+    'functions excepted) every non-exceptional path to the exit or to the next make passes the matching unmake with the same move and undo record.'
+    ' (8) the en-passant mask tables hold, for each file, exactly the neighbouring squares on the capturing rank (finite evaluation over the 8 files) and makeMove records an en-passant square only under that mask test.')
 UNDECIDED = ('equality of hash keys of rule-equal positions as values, bit-identity after arbitrary histories, FEN round trip of '
              'counters (value-level); the 8-bit half-move field of the compact form narrows clocks >= 256 (documented narrowing).')
 ASSUMPTIONS = ['material domain: <= 16 men per side, pawns + promoted officers <= 8 per side (the property\'s domain)',
